@@ -71,3 +71,35 @@ def check(chk: Check) -> None:
                 chk.ob("R00.2", "%s:constant-condition@%s" % (q, type(x).__name__), False, f.loc(x),
                        "%s branches on the constant %r: one side of a decision the rules rely on is dead"
                        % (q, t.value), 1)
+        # R00.3 a mutable default argument that the function (or a closure of it) writes to is
+        # state shared by every call in the process
+        a = node.args
+        pos = list(a.posonlyargs) + list(a.args)
+        defaults = list(zip(pos[len(pos) - len(a.defaults):], a.defaults)) + \
+            [(p, d) for p, d in zip(a.kwonlyargs, a.kw_defaults) if d is not None]
+        for prm, d in defaults:
+            mutable = isinstance(d, (ast.Dict, ast.List, ast.Set)) or (
+                isinstance(d, ast.Call) and isinstance(d.func, ast.Name)
+                and d.func.id in ("dict", "list", "set", "defaultdict", "OrderedDict", "bytearray"))
+            if not mutable:
+                continue
+            writes = []
+            for x in ast.walk(node):
+                if isinstance(x, ast.Subscript) and isinstance(x.ctx, (ast.Store, ast.Del)) and \
+                        isinstance(x.value, ast.Name) and x.value.id == prm.arg:
+                    writes.append(x)
+                if isinstance(x, ast.Call) and isinstance(x.func, ast.Attribute) and \
+                        isinstance(x.func.value, ast.Name) and x.func.value.id == prm.arg and \
+                        x.func.attr in ("append", "add", "update", "setdefault", "pop", "popitem", "clear",
+                                        "extend", "insert", "remove", "discard", "sort", "reverse",
+                                        "__setitem__", "__delitem__"):
+                    writes.append(x)
+                if isinstance(x, ast.AugAssign) and isinstance(x.target, ast.Name) and x.target.id == prm.arg:
+                    writes.append(x)
+            chk.rule("R00.3", "a mutable default argument is never written to (it would be state shared "
+                              "by every call: results would depend on earlier calls)")
+            chk.ob("R00.3", "%s:default(%s)-not-written" % (q, prm.arg), not writes, f.loc(),
+                   "%s writes to its parameter '%s', whose default is the mutable object %s created "
+                   "once at definition time: every call that relies on the default shares it, so what "
+                   "one call (one load, one IR) stored is seen by the next"
+                   % (q, prm.arg, unparse(d)), 1)
